@@ -86,12 +86,22 @@ class ParserRoles:
             raise AnalysisError(rule, "Lexer.__init__ not found")
         for n in walk_no_nested(init.node):
             if isinstance(n, ast.Assign) and isinstance(n.value, ast.Call) and call_name(n.value) == "compile":
+                def flags_of(e, depth=0):
+                    # a flag combination kept in a class attribute / module constant (FLAGS = re.MULTILINE | re.DOTALL)
+                    if depth < 4 and isinstance(e, ast.Attribute) and isinstance(e.value, ast.Name) and e.value.id in (init.params[0], self.Lexer.name) \
+                            and e.attr in self.Lexer.attrs:
+                        return flags_of(self.Lexer.attrs[e.attr], depth + 1)
+                    if depth < 4 and isinstance(e, ast.Name) and e.id in self.pmod.assigns:
+                        return flags_of(self.pmod.assigns[e.id], depth + 1)
+                    if isinstance(e, ast.BinOp) and isinstance(e.op, ast.BitOr):
+                        return flags_of(e.left, depth + 1) | flags_of(e.right, depth + 1)
+                    return regex_flags(e)
                 fl = 0
                 for a in n.value.args[1:]:
-                    fl |= regex_flags(a)
+                    fl |= flags_of(a)
                 for k in n.value.keywords:
                     if k.arg == "flags":
-                        fl |= regex_flags(k.value)
+                        fl |= flags_of(k.value)
                 pat = Evaluator(p, self.pmod, self.Lexer).eval(n.value.args[0]) if n.value.args else TOP
                 tgt = n.targets[0].attr if isinstance(n.targets[0], ast.Attribute) else None
                 if isinstance(pat, bytes):
@@ -141,6 +151,21 @@ class ParserRoles:
             if isinstance(c, ast.Call) and call_name(c) == "append" and isinstance(c.func.value, ast.Attribute):
                 out["curstringlist"] = c.func.value.attr.lstrip("_")
         return out
+
+    def command_namespace(self):
+        """Where commands are registered and looked up: ("globals", None) - the module namespace of commands.py, as in the pinned
+        tree - or ("registry", <name>) - a module-level dict of commands.py that the lookup reads with .get() / [...] / `in`."""
+        lk = self.lookup
+        if any(isinstance(c, ast.Call) and call_name(c) == "globals" for c in walk_no_nested(lk.node)):
+            return ("globals", None)
+        for n in walk_no_nested(lk.node):
+            if isinstance(n, ast.Name) and isinstance(n.ctx, ast.Load) and n.id in self.cmod.assigns:
+                v = self.cmod.assigns[n.id]
+                if isinstance(v, ast.Dict) or (isinstance(v, ast.Call) and call_name(v) == "dict"):
+                    par = getattr(n, "_parent", None)
+                    if isinstance(par, ast.Subscript) or (isinstance(par, ast.Attribute) and par.attr == "get") or isinstance(par, ast.Compare):
+                        return ("registry", n.id)
+        return (None, None)
 
     def an(self, role):
         return self._attr_roles[role]
